@@ -38,7 +38,7 @@ def run(rep, tier, seed):
     rng = random.Random("C07-%d" % seed)
     bad = []
     # ---- cost: marginal work must stay proportional
-    har = common.build_harness("cov", "cost")      # hooks H1/H2 and the basic-block count in one run
+    har = common.build_harness("cov", "cost", extra_flags=common.COST_WRAP)      # hooks H1/H2 and the basic-block count in one run
     fams = dict(FAMILIES)
     for _ in range(14 if tier == "quick" else 120):
         s = " ".join(rng.choice(ATOMS) for _ in range(rng.randint(2, 6))) + " "
@@ -88,7 +88,7 @@ def run(rep, tier, seed):
             bad.append(("superlinear-copies", "work for k copies of a document is not proportional to k: steps %s tokens %s for k=%s" % (steps, toks, list(ks)), dict(doc=d[:300])))
     # k copies, cost = executed basic blocks of the library (build variant "cov": gcc -fsanitize-coverage=trace-pc, one callback per basic block):
     # the cost per copy must not grow with k
-    harcov = common.build_harness("cov", "cost")
+    harcov = common.build_harness("cov", "cost", extra_flags=common.COST_WRAP)
     ATOM_BLOCKS = ["* item\n", "1. one\n", "para text *emph* and `code`\n\n", "> quote\n>\n", "> * a\n", "* a\n    * b\n", "[a][b]\n\n[b]: http://x.y\n\n",
                    "note[^a]\n\n[^a]: text\n\n", "# Head\n\ntext\n\n", "term\n: def\n\n", "| a | b |\n|---|---|\n| 1 | 2 |\n\n", "    code\n\n",
                    "* a\n\n    para\n\n", "[^n]: note\n    more\n\n", "> quote\n\n", "- [link](u \"t\") ![i](p)\n", "Head\n====\n\n", "```\ncode\n```\n\n", "<div>\nhtml\n</div>\n\n"]
@@ -104,7 +104,8 @@ def run(rep, tier, seed):
     for (d, ks, fmt), outs in zip(cjobs, cres):
         if any(o.startswith("CRASH") for o in outs): continue
         ncopies += 1
-        bb = [int(o.split()[3]) for o in outs]
+        # executed basic blocks of the library + bytes handled inside libc on its behalf (8 bytes counted as one block)
+        bb = [int(o.split()[3]) + int(o.split()[4]) // 8 for o in outs]
         pc = [b / k for b, k in zip(bb, ks)]
         percopy["%s/%s" % (d[:20].replace("\n", "\\n"), fmt)] = [round(x) for x in pc]
         # a document may ask for output that is itself more than proportional to k (k tables of contents, each listing the headings
